@@ -173,12 +173,15 @@ Fixpoint remove_first_other (g : list member) : option (member * list member) :=
            end
   end.
 
-Inductive errk := EConflict (* ConflictingPluralRuleType *) | ECollide (* PluralsAtNormalKey *).
+Inductive errk :=
+| EConflict  (* ConflictingPluralRuleType { key_path } *)
+| ECollide   (* PluralsAtNormalKey { key_path } *)
+| EInvalid.  (* InvalidKey(base): the error carries the base key only, modelled as the path [base] *)
 Definition warning := (list str * form * rule)%type.      (* UnusedForm: key path, form, rule type *)
 Inductive res :=
 | ROk (keys : kmap) (warns : list warning)
 | RErr (k : errk) (path : list str)
-| RPanic.                                                (* unwrap_at("merge_plurals_1") *)
+| RPanic.                                                (* a panic of the implementation; the repaired model never panics *)
 
 Section Level.
   Variable is_key : str -> bool.
@@ -199,7 +202,7 @@ Section Level.
           match remove_first_other g with
           | None => RPanic (* unreachable: an Other exists *)
           | Some (o, others) =>
-              if negb (is_key b) then RPanic else
+              if negb (is_key b) then RErr EInvalid [b] (* Key::try_new(&base_key)? *) else
               if existsb (fun m => negb (rule_eqb (m_rule m) (m_rule o))) others
               then RErr EConflict (path ++ [b])
               else
@@ -213,6 +216,30 @@ Section Level.
   Definition merge_level (path : list str) (ks : list (str * ival)) : res :=
     let '(keys, groups) := fold_left step1 ks ([], []) in
     loop2 path groups keys [].
+
+  (** ** Before fixes/C09-plural-base-key-not-identifier.diff: `Key::new(base).unwrap_at("merge_plurals_1")` panicked *)
+  Fixpoint loop2_panic_old (path : list str) (gs : gmap) (keys : kmap) (ws : list warning) : res :=
+    match gs with
+    | [] => ROk keys ws
+    | (b, g) :: rest =>
+        if Nat.eqb (length g) 1 || negb (existsb is_other g) then loop2_panic_old path rest (reinsert g keys) ws
+        else
+          match remove_first_other g with
+          | None => RPanic
+          | Some (o, others) =>
+              if negb (is_key b) then RPanic else
+              if existsb (fun m => negb (rule_eqb (m_rule m) (m_rule o))) others
+              then RErr EConflict (path ++ [b])
+              else
+                let forms := fold_left (fun acc m => finsert (m_form m) (m_id m) acc) others [] in
+                let ws' := ws ++ unused (path ++ [b]) (m_rule o) forms in
+                if mmem b keys then RErr ECollide (path ++ [b])
+                else loop2_panic_old path rest (minsert b (PluralV (m_rule o) (m_id o) forms) keys) ws'
+          end
+    end.
+  Definition merge_level_panic_old (path : list str) (ks : list (str * ival)) : res :=
+    let '(keys, groups) := fold_left step1 ks ([], []) in
+    loop2_panic_old path groups keys [].
 
   (** ** The algorithm before the repair (inner map keyed by the form only): kept for the refutation lemma *)
   Definition gmap_old := list (str * list member).   (* inner list sorted by form, one entry per form *)
@@ -357,14 +384,17 @@ Section Spec.
         forallb (fun b => plural_ok ks b (mget b out)) (merged_bases ks) &&
         (* warnings *)
         incl_b warning_eqb ws (expected_warnings path ks) && incl_b warning_eqb (expected_warnings path ks) ws
+    | RErr EInvalid p =>
+        (* the base key of a merged group is not an identifier: a descriptive error naming it *)
+        match p with [b] => mergeable ks b && negb (is_key b) | _ => false end
     | RErr k p =>
         match split_last p with
         | Some (pre, b) =>
             path_eqb pre path && mergeable ks b &&
-            match k with EConflict => mixed ks b | ECollide => collides ks b end
+            match k with EConflict => mixed ks b | ECollide => collides ks b | EInvalid => false end
         | None => false
         end
-    | RPanic => existsb (fun b => negb (is_key b)) (merged_bases ks)
+    | RPanic => false      (* merging yields keys or a descriptive error, never a panic *)
     end.
 End Spec.
 
